@@ -74,3 +74,12 @@ def run(fx, rep, tier):
         rep.obls.append(o)
     for f in sub.floors:
         rep.floors.append(f)
+    from . import c01
+    sub = type(rep)(rep.prop, rep.tier)
+    c01.r4_totality(facts, sub, "C13-R5")
+    sub.rules["C13-R5"] = ("both sides of a law exist together: +, - and * of commensurable operands never fail with an arithmetic "
+                           "error (a zero operand is a value like any other), / only for a zero divisor (shared with C01-R4's "
+                           "totality clause)")
+    rep.rules["C13-R5"] = sub.rules["C13-R5"]
+    for o in sub.obls:
+        rep.obls.append(o)
